@@ -155,7 +155,7 @@ Step(e) ==
             THEN IF ~rhealthy[e.id] THEN Stutter
                  ELSE IF e.what = "error" /\ e.code = 5 /\ rej[e.id] = <<>>
                  THEN IF e.res = "ok" THEN RejectOp(e.id, "err") /\ UNCHANGED mon ELSE Stutter
-                 ELSE Flag({"C10"}, "rejected_replier_not_told_properly")
+                 ELSE Flag({"C10", "C11"}, "rejected_replier_not_told_properly")
             ELSE IF rstat[e.id] # "bound" THEN Flag({"C10"}, "frame_sent_to_unbound_replier")
             ELSE IF e.what # "req" THEN Flag({"C10", "C02"}, "non_request_frame_to_bound_replier")
             ELSE IF ~(\E i \in UndelIdx(e.item[1], e.item[2]) : TRUE)
@@ -183,7 +183,7 @@ Step(e) ==
             ELSE IF rstat[e.id] # "rejected" THEN Flag({"C10"}, "closed_a_replier_that_was_not_rejected")
             ELSE IF ~rhealthy[e.id] THEN Stutter
             ELSE IF rej[e.id] = <<"err">> THEN RejectOp(e.id, "close") /\ UNCHANGED mon
-            ELSE Flag({"C10"}, "rejected_replier_closed_without_error_frame")
+            ELSE Flag({"C10", "C11"}, "rejected_replier_closed_without_error_frame")
       [] e.ev = "si_send" /\ e.role = "cl" ->
             IF ~chealthy[e.id] THEN Stutter
             ELSE IF e.res # "ok" THEN Flag({"C02", "C08"}, "healthy_requestor_sink_send_failed")
